@@ -35,6 +35,8 @@ type request struct {
 	ID   string `json:"id"`
 	Dir  string `json:"dir"`
 	Main string `json:"main"`
+	// export the tree although the typechecker reported errors (codes 3000..3999); for checks that are about the shape of the tree only
+	TreeOnly bool `json:"tree_only"`
 }
 
 type answer struct {
@@ -58,6 +60,7 @@ type exporter struct {
 	structs  []J
 	stName   map[*ddptypes.StructType]string
 	stDecl   map[*ddptypes.StructType]*ast.StructDecl
+	genDecl  map[*ddptypes.GenericStructType]*ast.StructDecl
 	stDone   map[*ddptypes.StructType]bool
 	usedName map[string]bool
 	unsup    map[string]int
@@ -148,6 +151,8 @@ func (x *exporter) typ(t ddptypes.Type) (J, bool) {
 	case ddptypes.ListType:
 		e, ok := x.typ(t.ElementType)
 		return J{"l": e}, ok
+	case *ddptypes.InstantiatedGenericType:
+		return x.typ(t.Actual) // the type parameter of a generic function inside one of its instantiations
 	case *ddptypes.TypeAlias:
 		return x.typ(t.Underlying) // aliases are transparent
 	case *ddptypes.TypeDef:
@@ -166,22 +171,31 @@ func (x *exporter) structName(t *ddptypes.StructType) (string, bool) {
 		return n, n != ""
 	}
 	d, ok := x.stDecl[t]
+	name := t.Name
 	if !ok {
+		// an instantiation of a generic Kombination: the declaration of its template, the field types of the instantiation
+		if g, _ := ddptypes.InstantiatedFrom(t); g != nil {
+			d, ok = x.genDecl[g]
+			name = t.String()
+			x.feat["generic-kombination"] = true
+		}
+	}
+	if !ok || len(d.Fields) != len(t.Fields) {
 		x.stName[t] = ""
-		x.un("struct-without-decl(generic instantiation)")
+		x.un("struct-without-decl")
 		return "", false
 	}
-	n := san(t.Name) + x.modSuffix(d.Mod)
+	n := san(name) + x.modSuffix(d.Mod)
 	x.stName[t] = n
 	// export the declaration (fields in order, default expressions evaluated with globals only)
 	fields := []any{}
-	for _, fd := range d.Fields {
+	for fi, fd := range d.Fields {
 		vd, isVar := fd.(*ast.VarDecl)
 		if !isVar {
 			x.un("struct-field-baddecl")
 			continue
 		}
-		ft, _ := x.typ(vd.Type)
+		ft, _ := x.typ(t.Fields[fi].Type)
 		def := J{"k": "none"}
 		if vd.InitVal != nil {
 			def = x.expr(vd.InitVal)
@@ -648,6 +662,9 @@ func (x *exporter) collectStructs(m *ast.Module, seen map[*ast.Module]bool) {
 				if st, ok := sd.Type.(*ddptypes.StructType); ok {
 					x.stDecl[st] = sd
 				}
+				if gt, ok := sd.Type.(*ddptypes.GenericStructType); ok {
+					x.genDecl[gt] = sd
+				}
 			}
 		}
 	}
@@ -704,12 +721,15 @@ func export(req request) (ans answer) {
 	old, _ := os.Getwd()
 	_ = os.Chdir(filepath.Dir(mainPath))
 	defer os.Chdir(old)
-	nerr := 0
+	nerr, nother := 0, 0
 	mods := map[string]*ast.Module{}
 	module, perr := parser.Parse(parser.Options{FileName: mainPath, Source: src, Modules: mods,
 		ErrorHandler: func(e ddperror.Error) {
 			if e.Level == ddperror.LEVEL_ERROR {
 				nerr++
+				if e.Code < 3000 || e.Code >= 4000 {
+					nother++
+				}
 			}
 		}})
 	if perr != nil || module == nil || module.Ast == nil {
@@ -717,13 +737,13 @@ func export(req request) (ans answer) {
 		return
 	}
 	ans.Faulty = module.Ast.Faulty || nerr > 0
-	if ans.Faulty {
+	if ans.Faulty && !(req.TreeOnly && nother == 0) {
 		ans.Err = "faulty"
 		return
 	}
 	x := &exporter{mainMod: module, modIdx: map[*ast.Module]int{}, inited: map[*ast.Module]bool{module: true},
 		funcName: map[*ast.FuncDecl]string{}, funcDone: map[*ast.FuncDecl]bool{}, stName: map[*ddptypes.StructType]string{},
-		stDecl: map[*ddptypes.StructType]*ast.StructDecl{}, stDone: map[*ddptypes.StructType]bool{}, usedName: map[string]bool{},
+		stDecl: map[*ddptypes.StructType]*ast.StructDecl{}, genDecl: map[*ddptypes.GenericStructType]*ast.StructDecl{}, stDone: map[*ddptypes.StructType]bool{}, usedName: map[string]bool{},
 		unsup: ans.Unsup, feat: map[string]bool{}}
 	x.collectStructs(module, map[*ast.Module]bool{})
 	main := x.stmts(module.Ast.Statements)
